@@ -570,6 +570,24 @@ def finish(prop, tier, seed, results, t_start, extra=None):
     json.dump(ev, open(os.path.join(VERIF, 'evidence', '%s.json' % prop), 'w'), indent=1)
     for base, k in known_hits:
         log('KNOWN-FINDING: property=%s %s %s' % (prop, base, k.get('what_fails', '')))
+    # findings recorded by a concrete history on the real code (no failing obligation: the proof holds only inside a
+    # stated range and the history lies outside it): replayed on every run; printed while they still reproduce
+    hist_known = [k for k in known if k.get('status') == 'known' and k.get('history') and not k.get('label')]
+    if hist_known:
+        binp, err = replay_bin()
+        rk = []
+        for k in hist_known:
+            if binp is None:
+                rk.append({'finding': k.get('id'), 'replayed': False, 'note': 'replay tool does not build: %s' % err})
+                log('KNOWN-FINDING: property=%s %s %s (not replayed: tool does not build)' % (prop, k.get('id'), k.get('what_fails', '')))
+                continue
+            p = subprocess.run([binp, 'run', os.path.join(VERIF, k['history']), '--quiet'], capture_output=True, text=True, timeout=600)
+            rk.append({'finding': k.get('id'), 'history': k['history'], 'exit': p.returncode,
+                       'reproduces': p.returncode == 3})
+            if p.returncode == 3:
+                log('KNOWN-FINDING: property=%s %s %s' % (prop, k.get('id'), k.get('what_fails', '')))
+        ev['coverage']['known_findings_replayed'] = rk
+        json.dump(ev, open(os.path.join(VERIF, 'evidence', '%s.json' % prop), 'w'), indent=1)
     for hit in real_hits:
         log('VIOLATION property=%s replay=%s' % (prop, hit))
     if real_hits and not violations:
